@@ -1,9 +1,9 @@
 SPECIFICATION Spec
 CONSTANTS
-  N = 8
-  MaxK = 5
+  N = 6
+  MaxK = 4
   MaxCalls = 3
-  Bug = "none"
+  Bug = "no_break"
 INVARIANT InvA
 INVARIANT InvB
 INVARIANT Composable
